@@ -97,13 +97,9 @@ def frame_pairs(repo, res):
 def finder_cutouts(repo, res):
     for cn in ('photutils.detection.daofinder._DAOStarFinderCatalog', 'photutils.detection.irafstarfinder._IRAFStarFinderCatalog'):
         f = repo.method(cn, 'make_cutouts')
-        expect_stmt(res, 'SPEC', f, nf_text('cutouts.append(extract_array(data, self.cutout_shape, (ypos, xpos), fill_value=0.0))'),
-                    'star cutouts extracted around (ypos, xpos)')
-        loops = [n for n in ast.walk(f.node) if isinstance(n, ast.For)]
-        ok = len(loops) == 1 and nf(loops[0].target) == '(xpos,ypos)' and nf(loops[0].iter) == 'self.xypos'
-        res.oblige('SPEC', f'{f.qualname}: positions unpacked as (xpos, ypos) from xypos', ok, nontrivial=True)
-        if not ok:
-            res.add(Finding('SPEC', f.fullname, 'xypos unpacking', f.loc, 'xypos rows must be unpacked as (xpos, ypos)', {}))
+        expect_stmt(res, 'SPEC', f, 'cutouts = ' + nf_text('[extract_array(data, self.cutout_shape, (ypos, xpos), fill_value=0.0) '
+                                                           'for xpos, ypos in self.xypos]'),
+                    'star cutouts extracted around (ypos, xpos), the xypos rows unpacked as (xpos, ypos)')
     f = repo.method('photutils.detection.starfinder._StarFinderCatalog', 'slices')
     expect_stmt(res, 'SPEC', f, nf_text('(slc, _)') + ' = ' + nf_text("overlap_slices(self.data.shape, self.shape, (ypos, xpos), mode='trim')"),
                 'StarFinder cutout slices around (ypos, xpos)')
